@@ -1,5 +1,6 @@
 import RV.C04.ConstructLemmas
 import RV.C04.AnalysisLemmas
+import RV.C04.TranslateLemmas
 /-
   C04 — "SPARQL graph patterns evaluate to the solution multiset the algebra defines".
 
@@ -570,5 +571,59 @@ theorem lazy_exposes_K1 :
     k1Pattern.strict.safeIn [] = true ∧ k1Pattern.safeIn [] = false ∧
     (Model.evalPart k1Data k1Data.dflt (Row.empty : Row 4) k1Pattern.strict).length = 0 ∧
     (Model.evalPart k1Data k1Data.dflt (Row.empty : Row 4) k1Pattern).length = 1 := by decide
+
+end RV.C04
+
+namespace RV.C04
+open Spec Model
+
+/-! ### rdflib's translation (`translateGroupGraphPattern`, `collectAndRemoveFilters`, `translateExists`, `simplify`; model:
+    Translate.lean, compared with rdflib's own tree on every case through the driver line `translate`) -/
+
+/-- the tree of `Translate.query` before `simplify` and the analysis passes -/
+def Translate.rawQuery : SQuery → Query
+  | .select (some pv) g => .select pv (Translate.rawGroup g)
+  | .select none g => .select (Translate.starVars g) (Translate.rawGroup g)
+  | .ask g => .ask (Translate.starVars g) (Translate.rawGroup g)
+  | .construct tpl g => .construct tpl (Translate.starVars g) (Translate.rawGroup g)
+
+/-- DESIGN's `translate_agrees`, at full strength: rdflib's translation of a parsed query (as modelled) and the §18.2
+    translation of the specification denote the same answer.  STATED ONLY — not proved in this round (the element fold
+    differs from §18.2 by merged triple blocks, un-simplified EXISTS patterns and the `SELECT *` projection of sub-selects;
+    a proof needs a mutual induction over the syntax with bag congruences).  It is tied on every run: rdflib's tree equals
+    `Translate.query` (driver line `translate`), and rdflib's answers equal the reference evaluator's on `Spec.translate`. -/
+def Statement_translate_agrees : Prop :=
+  ∀ (n : Nat) (D : Dataset) (q : SQuery),
+    ResultEq (Spec.evalQuery (n := n) D (Translate.query q)) (Spec.evalQuery D (Spec.translate q))
+
+/-- `simplify` (and the analysis passes) do not change what the specification assigns to the translated tree -/
+theorem specEvalQuery_translate (n : Nat) (D : Dataset) (q : SQuery) :
+    Spec.evalQuery (n := n) D (Translate.query q) = Spec.evalQuery D (Translate.rawQuery q) := by
+  cases q with
+  | select proj g =>
+    cases proj <;>
+      simp [Translate.query, Translate.rawQuery, Spec.evalQuery, Translate.group, specEval_annotate, specEval_simplify]
+  | ask g => simp [Translate.query, Translate.rawQuery, Spec.evalQuery, Translate.group, specEval_annotate, specEval_simplify]
+  | construct tpl g =>
+    simp [Translate.query, Translate.rawQuery, Spec.evalQuery, Translate.group, specEval_annotate, specEval_simplify]
+
+/-- translation + `simplify` + `analyse` / `_addVars` + evaluator, all as modelled, from the PARSED query: wherever the
+    resulting tree is `safeTop`, the answer is the §18 evaluation of the tree the element fold builds -/
+theorem translate_pipeline (n : Nat) (D : Dataset) (q : SQuery) (mint : Nat → Term) (hD : D.WF)
+    (hs : (Translate.query q).safeTop = true) (hws : WellScoped n (Translate.query q).pattern)
+    (hg : (Translate.query q).groundTemplate) :
+    ResultEq (Model.evalQuery (n := n) mint D (Translate.query q)) (Spec.evalQuery D (Translate.rawQuery q)) := by
+  rw [← specEvalQuery_translate]
+  exact eval_correct_top n D (Translate.query q) mint hD hs hws hg
+
+/-- the order of group elements matters and the fold keeps it: `{ ?0 <10> ?1  MINUS { ?0 <11> ?2 }  ?0 <10> ?2 }` is
+    `Join(Minus(P1, P2), P3)`, not `Minus(P1 + P3, P2)` (seeded change C04-13) -/
+example : Translate.rawGroup (.cons (.tri [tp (.var 0) (.const (i 10)) (.var 1)])
+      (.cons (.minus (.cons (.tri [tp (.var 0) (.const (i 11)) (.var 2)]) .nil))
+        (.cons (.tri [tp (.var 0) (.const (i 10)) (.var 2)]) .nil))) =
+    .join false
+      (.minus (.join false (.bgp []) (.bgp [tp (.var 0) (.const (i 10)) (.var 1)]))
+        (.join false (.bgp []) (.bgp [tp (.var 0) (.const (i 11)) (.var 2)])) none none)
+      (.bgp [tp (.var 0) (.const (i 10)) (.var 2)]) := rfl
 
 end RV.C04
